@@ -247,7 +247,34 @@ func (u *Unit) builtin(name string, c *ast.CallExpr, env *Env) []Outcome {
 		u.chanClose(env, ch.Term, c)
 		return ret(env)
 	case "copy":
-		unsup("copy builtin")
+		// copy(dst, src): the first n = min(len(dst), len(src)) cells of dst become those of src (read from the old heap,
+		// as memmove does); a write to dst's storage when n > 0
+		d := u.eval(c.Args[0], env)
+		sv := u.eval(c.Args[1], env)
+		dt, ok := types.Unalias(d.Ty).Underlying().(*types.Slice)
+		if !ok || sv.Sort != SSlice {
+			unsup("copy on %s", d.Ty)
+		}
+		es := u.sortOf(dt.Elem())
+		hn := sliceHeapName(es)
+		hs := ArrS(SRef, ArrS(SInt, es))
+		hOld := u.heap(env, hn, hs)
+		n := u.define(env, "copyn", Ite(le(sLen(d.Term), sLen(sv.Term)), sLen(d.Term), sLen(sv.Term)))
+		{
+			sub := env.clone()
+			sub.assume(lt(IntLit(0), n))
+			u.frameCheckRef(sub, sBase(d.Term), "cells", c)
+			u.adoptDecls(env, sub)
+		}
+		arr := u.D.Fresh("cparr", ArrS(SInt, es))
+		j := u.D.Bound("j", SInt)
+		rel := sub(j, sOff(d.Term))
+		body := Same(Select(arr, j),
+			Ite(And(le(sOff(d.Term), j), lt(rel, n)), Select(Select(hOld, sBase(sv.Term)), u.idx(sv.Term, rel)),
+				Select(Select(hOld, sBase(d.Term)), j)))
+		env.assume(Forall([]Term{j}, body, []Term{Select(arr, j)}))
+		u.setHeap(env, hn, u.define(env, "h_"+hn, Ite(lt(IntLit(0), n), Store(hOld, sBase(d.Term), arr), hOld)))
+		return ret(env, Value{n, types.Typ[types.Int]})
 	}
 	unsup("builtin %s", name)
 	return nil
@@ -762,6 +789,11 @@ func (u *Unit) paramScope(fi *FuncInfo, recv *Value, args []Value) map[string]Va
 }
 
 func (u *Unit) callByContract(c *ast.CallExpr, fi *FuncInfo, blk *Block, recv *Value, args []Value, env *Env) []Outcome {
+	for _, a := range args {
+		if a.Sort == SFn {
+			u.checkStableCaptures(env, u.knownLits[a.S], c)
+		}
+	}
 	u.usedContracts[fi.Key] = blk.Prop
 	sig := fi.Obj.Type().(*types.Signature)
 	scope := u.paramScope(fi, recv, args)
